@@ -630,6 +630,9 @@ fn ext(sql: String, name: &str) -> Vec<FrontMsg> {
 /// with named statements executed later (statement cache on); control runs with plugins off.
 pub fn c19(rng: &mut Rng, thorough: bool, idx: u64) -> Spec {
     let plugins_on = idx % 4 != 3;
+    // every sixth run: the plugins are switched on by a reload while the clients are connected and idle
+    let reload_enables = idx % 6 == 5;
+    let plugins_on = if reload_enables { true } else { plugins_on };
     let cache_on = rng.chance(0.4);
     let mut cfg = single_pool("transaction", 2, 0);
     cfg.set("connect_timeout", 5000);
@@ -639,17 +642,23 @@ pub fn c19(rng: &mut Rng, thorough: bool, idx: u64) -> Spec {
     }
     let per_pool = rng.chance(0.5);
     let prefix = if per_pool { "pools.db.plugins" } else { "plugins" };
-    let body = format!(
-        "\n[{p}]\n\n[{p}.query_logger]\nenabled = {ql}\n\n[{p}.table_access]\nenabled = {on}\ntables = [\"secret\", \"pg_user\"]\n\n[{p}.intercept]\nenabled = {on}\n\n[{p}.intercept.queries.0]\nquery = \"{rule}\"\nschema = [[\"a\", \"text\"], [\"b\", \"text\"]]\nresult = [[\"${{DATABASE}}\", \"{{public}}\"]]\n",
-        p = prefix,
-        ql = rng.chance(0.5),
-        on = plugins_on,
-        rule = INTERCEPT_RULE
-    );
+    let ql = rng.chance(0.5);
+    let body_of = |on: bool| {
+        format!(
+            "\n[{p}]\n\n[{p}.query_logger]\nenabled = {ql}\n\n[{p}.table_access]\nenabled = {on}\ntables = [\"secret\", \"pg_user\"]\n\n[{p}.intercept]\nenabled = {on}\n\n[{p}.intercept.queries.0]\nquery = \"{rule}\"\nschema = [[\"a\", \"text\"], [\"b\", \"text\"]]\nresult = [[\"${{DATABASE}}\", \"{{public}}\"]]\n",
+            p = prefix,
+            ql = ql,
+            on = on,
+            rule = INTERCEPT_RULE
+        )
+    };
+    let mut cfg_after = cfg.clone();
     if per_pool {
-        cfg.pools[0].plugins = Some(body);
+        cfg.pools[0].plugins = Some(body_of(plugins_on && !reload_enables));
+        cfg_after.pools[0].plugins = Some(body_of(true));
     } else {
-        cfg.plugins = Some(body);
+        cfg.plugins = Some(body_of(plugins_on && !reload_enables));
+        cfg_after.plugins = Some(body_of(true));
     }
     let nclients = rng.range(1, 2) as u32;
     let mut plan = serde_json::Map::new();
@@ -658,6 +667,15 @@ pub fn c19(rng: &mut Rng, thorough: bool, idx: u64) -> Spec {
         let mut p = Prog::new(id);
         let n = rng.range(4, if thorough { 20 } else { 10 });
         let mut named = 0u32;
+        if reload_enables {
+            // connected and served before the reload, idle while it happens
+            p.new_txn();
+            let t = p.tag();
+            plan.insert(t.clone(), serde_json::json!({"listed": false, "companion": true}));
+            p.simple(format!("SELECT '{}' FROM open_t", t));
+            p.steps.push(Step::Wait { ev: "reloaded".into() });
+            p.think(rng.range(0, 30));
+        }
         for _ in 0..n {
             p.new_txn();
             let listed = rng.chance(0.6);
@@ -774,13 +792,23 @@ pub fn c19(rng: &mut Rng, thorough: bool, idx: u64) -> Spec {
         c.patience_ms = 30_000;
         clients.push(c);
     }
+    let mut actions = Vec::new();
+    if reload_enables {
+        let t = rng.range(60, 200);
+        actions.push(ActionSpec { at: When::AtMs { ms: t }, act: Action::SetFile { kind: "data".into(), content: cfg_after.render() } });
+        let mut a = admin_client(500, "main", When::AtMs { ms: t + rng.range(5, 40) }, &["RELOAD"]);
+        let last = a.steps.len() - 1;
+        a.steps.insert(last, Step::Emit { ev: "reloaded".into() });
+        clients.push(a);
+    }
     let net = if rng.chance(0.5) { net_calm() } else { net_swarm(rng) };
-    let mut spec = Spec { config_toml: cfg.render(), hosts: cfg.hosts(), net, clients, end: EndSpec { deadline_ms: 900_000, calm_ms: 20 }, ..Default::default() };
+    let mut spec = Spec { config_toml: cfg.render(), hosts: cfg.hosts(), net, clients, actions, end: EndSpec { deadline_ms: 900_000, calm_ms: 20 }, ..Default::default() };
     spec.params = params_from(&cfg);
     spec.params.insert("plugins_on".into(), serde_json::json!(plugins_on));
+    spec.params.insert("reload_enables".into(), serde_json::json!(reload_enables));
     spec.params.insert("cache_on".into(), serde_json::json!(cache_on));
     spec.params.insert("c19_plan".into(), serde_json::Value::Object(plan));
-    spec.family = format!("plugins/{}{}{}", if plugins_on { "enabled" } else { "disabled" }, if per_pool { "/per_pool" } else { "/global" }, if cache_on { "/cache" } else { "" });
+    spec.family = format!("plugins/{}{}{}", if reload_enables { "enabled_by_reload" } else if plugins_on { "enabled" } else { "disabled" }, if per_pool { "/per_pool" } else { "/global" }, if cache_on { "/cache" } else { "" });
     spec.oracles = vec!["c19_plugins".into(), "liveness".into()];
     spec
 }
